@@ -511,6 +511,18 @@ def ExtParse(inp, tab, ev):
         d["again"] = T(again)
         if inp["form"] == "stream-offset":
             d["pos"] = arg.tell()
+        # the parsed node handed around as Python objects are: copied, deep-copied, pickled - an equal node that
+        # serialises identically (a treatment the node does not support is skipped)
+        import copy
+        import pickle
+        d["copies"] = []
+        for how, f in (("copy", copy.copy), ("deepcopy", copy.deepcopy), ("pickle", lambda x: pickle.loads(pickle.dumps(x)))):
+            try:
+                c = f(n)
+                s2 = c.extended_private_key(version=n.parsed_version) if inp["asPrv"] else c.extended_public_key(version=n.parsed_version)
+            except Exception:
+                continue
+            d["copies"].append({"how": how, "s": T(s2), "equal": bool(c == n)})
         return d
     if ok:
         ok, n = call(view, n)       # a node whose key cannot be used counts as a failed parse
@@ -828,10 +840,15 @@ def Bip85(inp, tab, ev):
     rmaster = ref_node(tab, inp["master"])
     wt = W.ref_bip85(tab, rmaster, app, p, i, prf, word_list)
     ev["wordtab"] = wt or []
+    def request(be):
+        return {"mnemonic": lambda: be.bip39_mnemonic(word_count=p, index=i), "wif": lambda: be.wif(index=i),
+                "xprv": lambda: be.xprv(index=i), "hex": lambda: be.hex(num_bytes=p, index=i),
+                "pwd": lambda: be.pwd(pwd_len=p, index=i)}[app]
+    # other wallets of the same process asked the same question first (their answers are not judged here)
+    for other in inp.get("warm", []):
+        call(request(BIP85DeterministicEntropy(master_node=py_node(other))))
     be = BIP85DeterministicEntropy(master_node=py_node(inp["master"]))
-    f = {"mnemonic": lambda: be.bip39_mnemonic(word_count=p, index=i), "wif": lambda: be.wif(index=i),
-         "xprv": lambda: be.xprv(index=i), "hex": lambda: be.hex(num_bytes=p, index=i),
-         "pwd": lambda: be.pwd(pwd_len=p, index=i)}[app]
+    f = request(be)
     with PrfTap(prf):
         ok, v = call(f)
     ev["res"] = res_of(ok, v, T)
@@ -1046,7 +1063,7 @@ def Generate(inp, tab, ev):
             # the library's JSON rendering, parsed by TLC's own JSON reader (Gson) and compared with the tree
             p = os.path.join(_tlc.scratch_dir("json"), "wallet.json")
             with open(p, "w") as f:
-                f.write(w.json(data))
+                f.write(w.json(data) if inp["json"] is True else w.json(data, indent=int(inp["json"])))
             ev["jsonfile"] = p
             ev["tree"] = data
         return out
